@@ -83,11 +83,11 @@ func init() {
 		"strings.Clone":              func(i *interpreter, fr *frame, a []value) (value, bool) { return a[0], true },
 		"(*sync.Pool).Get":        poolGet,
 		"(*sync.Pool).Put":        poolPut,
-		"(*sync.Mutex).Lock":      noop,
-		"(*sync.Mutex).Unlock":    noop,
+		"(*sync.Mutex).Lock":      lockIn,
+		"(*sync.Mutex).Unlock":    lockOut,
 		"(*sync.Mutex).TryLock":   func(i *interpreter, fr *frame, a []value) (value, bool) { return true, true },
-		"(*sync.RWMutex).Lock":    noop,
-		"(*sync.RWMutex).Unlock":  noop,
+		"(*sync.RWMutex).Lock":    lockIn,
+		"(*sync.RWMutex).Unlock":  lockOut,
 		"(*sync.RWMutex).RLock":   noop,
 		"(*sync.RWMutex).RUnlock": noop,
 		"(*sync.Once).Do":         onceDo,
@@ -124,6 +124,12 @@ func castIndirect(i *interpreter, fr *frame, a []value) (value, bool) {
 }
 
 func noop(i *interpreter, fr *frame, a []value) (value, bool) { return nil, true }
+
+// lockIn / lockOut count the exclusive locks held: the ownership monitor does not report a
+// store made while one is held (stated assumption: a write under a lock is synchronised with
+// every other access to that memory).
+func lockIn(i *interpreter, fr *frame, a []value) (value, bool)  { i.lockDepth++; return nil, true }
+func lockOut(i *interpreter, fr *frame, a []value) (value, bool) { i.lockDepth--; return nil, true }
 
 // symGuard lets the concrete implementation run and aborts the path on symbolic input.
 func symGuard(name string) libFn {
@@ -571,6 +577,7 @@ func poolGet(i *interpreter, fr *frame, a []value) (value, bool) {
 	if l := i.pools[p]; len(l) > 0 {
 		v := l[len(l)-1]
 		i.pools[p] = l[:len(l)-1]
+		i.markReleased(v, false)
 		return v, true
 	}
 	st := (*p).(structure)
@@ -596,7 +603,50 @@ func poolPut(i *interpreter, fr *frame, a []value) (value, bool) {
 		i.pools = map[*value][]value{}
 	}
 	i.pools[p] = append(i.pools[p], a[1])
+	if i.frozen != nil {
+		// ownership: the object now belongs to whoever Gets it next
+		i.markReleased(a[1], true)
+	}
 	return nil, true
+}
+
+// markReleased marks (or unmarks) the cells of the object itself: the pointed-to variable and,
+// for structs and arrays, their inline fields; memory behind further pointers is not owned by
+// the pool entry.
+func (i *interpreter) markReleased(v value, on bool) {
+	if !on && len(i.released) == 0 {
+		return
+	}
+	if i.released == nil {
+		i.released = map[*value]bool{}
+	}
+	var cells func(p *value)
+	cells = func(p *value) {
+		if p == nil {
+			return
+		}
+		if on {
+			i.released[p] = true
+		} else {
+			delete(i.released, p)
+		}
+		switch x := (*p).(type) {
+		case structure:
+			for k := range x {
+				cells(&x[k])
+			}
+		case array:
+			for k := range x {
+				cells(&x[k])
+			}
+		}
+	}
+	if f, ok := v.(iface); ok {
+		v = f.v
+	}
+	if p, ok := v.(*value); ok {
+		cells(p)
+	}
 }
 
 func onceDo(i *interpreter, fr *frame, a []value) (value, bool) {
@@ -608,6 +658,8 @@ func onceDo(i *interpreter, fr *frame, a []value) (value, bool) {
 		return nil, true
 	}
 	i.onces[p] = true
+	i.lockDepth++ // the body of Once.Do is synchronised by Once
+	defer func() { i.lockDepth-- }()
 	call(i, fr, token.NoPos, a[1], nil)
 	return nil, true
 }
